@@ -49,6 +49,9 @@ func inputs(seed uint64, tier string, n int) [][2]string {
 		parts = 1
 	}
 	var out [][2]string
+	for i, s := range hs.Regress("c08") { // minimised regression inputs run first
+		out = append(out, [2]string{fmt.Sprintf("regress:%d", i), s})
+	}
 	for i, s := range hs.Always() {
 		out = append(out, [2]string{fmt.Sprintf("pinned:%d", i), s})
 	}
@@ -110,6 +113,25 @@ func seqCase(id, src string, cfg hs.Cfg) caseObs {
 	if hs.ErrStr(serr) != hs.ErrStr(perr) {
 		o.Fails = append(o.Fails, "stmtsseq_error_differs")
 		o.Note = fmt.Sprintf("Parse err=%q StmtsSeq err=%q", hs.ErrStr(perr), hs.ErrStr(serr))
+	}
+	// the same, fed one line per Read (streaming): still Parse's statements
+	if perr == nil {
+		var lstmts []*syntax.Stmt
+		var lerr error
+		lp, _ := hx.Try(func() {
+			for s, e := range cfg.New().StmtsSeq(&lineReader{src: src}) {
+				if e != nil {
+					lerr = e
+				}
+				if s != nil {
+					lstmts = append(lstmts, s)
+				}
+			}
+		})
+		if lp || lerr != nil || len(lstmts) != len(f.Stmts) || (len(lstmts) > 0 && !reflect.DeepEqual(lstmts, f.Stmts)) {
+			o.Fails = append(o.Fails, "stmtsseq_line_fed_differs_from_parse")
+			o.Note += fmt.Sprintf(" line-fed: %d stmts err=%v", len(lstmts), lerr)
+		}
 	}
 	_ = nerr // an error may be handed out twice (with the statement and at the end); the property does not forbid it
 	if perr == nil {
@@ -796,6 +818,60 @@ func printerCross(o hx.Opts) {
 	}
 }
 
+// interSessionCross (fixed enumeration): one Parser runs an earlier InteractiveSeq session to its end and then a second one;
+// the callback sequence of the second session (batch sizes, statements, Incomplete, error) must be that of a fresh Parser.
+func interSessionCross(o hx.Opts) {
+	earlier := []string{"a\nb\nc\nd\ne\n", "foo", "a; b", "if x; then\ny\nfi\n", "# c\n\n\n\n", "a \\\n", "cat <<E\nx\n", "echo `", "a &&\n", "x\n\n\n\n\n\ny"}
+	tests := append(hs.Regress("c08"), hs.HeredocLast...)
+	session := func(p *syntax.Parser, src string) (evs []event, pan string) {
+		defer func() {
+			if r := recover(); r != nil {
+				pan = fmt.Sprint(r)
+			}
+		}()
+		for stmts, err := range p.InteractiveSeq(&lineReader{src: src}) {
+			ev := event{Incomplete: p.Incomplete(), Err: hs.ErrStr(err)}
+			ev.Stmts = append(ev.Stmts, stmts...)
+			evs = append(evs, ev)
+			if len(evs) > 10000 {
+				break
+			}
+		}
+		return
+	}
+	for li, l := range hs.Langs {
+		for _, e := range earlier {
+			for ti, t := range tests {
+				if o.Tier != "thorough" && (ti+li)%2 != 0 && l != syntax.LangBash {
+					continue
+				}
+				cfg := hs.Cfg{Lang: l, Keep: (ti+li)%2 == 0}
+				hs.SetCurrent("interactive session cross " + hx.Hex(e) + " then " + hx.Hex(t))
+				want, wp := session(cfg.New(), t)
+				if wp != "" {
+					continue
+				}
+				used := cfg.New()
+				if _, ep := session(used, e); ep != "" {
+					continue
+				}
+				got, gp := session(used, t)
+				po := caseObs{Mode: "reuse-interactive-session", ID: "session-cross", Hex: hx.Hex(t), Lang: l.String(), Valid: true, NStmt: 1}
+				same := gp == "" && len(got) == len(want)
+				for i := 0; same && i < len(got); i++ {
+					same = got[i].Incomplete == want[i].Incomplete && got[i].Err == want[i].Err && len(got[i].Stmts) == len(want[i].Stmts) &&
+						(len(got[i].Stmts) == 0 || reflect.DeepEqual(got[i].Stmts, want[i].Stmts))
+				}
+				if !same {
+					po.Fails = append(po.Fails, "second_interactive_session_differs_from_fresh")
+					po.Note = fmt.Sprintf("earlier session %q; fresh gives %d callbacks, reused %d", e, len(want), len(got))
+				}
+				hx.Emit(po)
+			}
+		}
+	}
+}
+
 func trunc(s string, n int) string {
 	if len(s) > n {
 		return s[:n] + "…"
@@ -1181,13 +1257,23 @@ func main() {
 		r := hx.Rand(o.Seed, 801)
 		for _, in := range ins {
 			langs := []syntax.LangVariant{hs.Langs[r.IntN(len(hs.Langs))]}
-			if o.Tier == "thorough" || strings.HasPrefix(in[0], "corpus") {
+			fixed := strings.HasPrefix(in[0], "regress") || strings.HasPrefix(in[0], "pinned")
+			if o.Tier == "thorough" || strings.HasPrefix(in[0], "corpus") || fixed {
 				langs = hs.Langs
 			}
-			for _, l := range langs {
+			for li, l := range langs {
 				hs.SetCurrent(o.Mode + " " + l.String() + " " + hx.Hex(in[1]))
 				hx.Flush()
 				cfg := hs.Cfg{Lang: l, Keep: r.IntN(4) > 0}
+				if fixed { // pinned inputs: both comment modes on every variant, independent of the seed
+					cfg.Keep = li%2 == 0
+					alt := hs.Cfg{Lang: l, Keep: !cfg.Keep}
+					if o.Mode == "seq" {
+						hx.Emit(seqCase(in[0], in[1], alt))
+					} else {
+						hx.Emit(interCase(in[0], in[1], alt))
+					}
+				}
 				if o.Mode == "seq" {
 					hx.Emit(seqCase(in[0], in[1], cfg))
 				} else {
@@ -1200,6 +1286,7 @@ func main() {
 		}
 	case "reuse":
 		printerCross(o)
+		interSessionCross(o)
 		corpus := hs.Corpus(4000)
 		ins := inputs(o.Seed, o.Tier, o.N)
 		r := hx.Rand(o.Seed, 802)
